@@ -99,6 +99,9 @@ func checkC09(c *vh.Ctx) {
 				o := proj.CropOpt{Set: set, Yml: f == 1}
 				j := k + shift + si
 				o.CO2 = 1 + j%3
+				if (j/3)%7 == 5 {
+					o.CO2 = []int{0, 4}[(j/21)%2] // values outside 1..3: no CO2 effect on photosynthesis / transpiration (the else-branches of crop.go:790-833, water.go:687-710)
+				}
 				o.NLevel = (j / 3) % 4
 				o.Scenario = c09Scenarios[(j/12+round+si)%5]
 				o.AutoHarvest = c.Rng.Chance(0.25)
